@@ -924,7 +924,9 @@ func (x *Exec) ifaceEq(a, b Value) *smt.Term {
 			return B.Eq(p[1].Fields[0].(*smt.Term), B.IntC(0))
 		}
 	}
-	return B.And(B.Eq(as.Fields[0].(*smt.Term), bs.Fields[0].(*smt.Term)), B.Eq(x.scalar(as.Fields[1], nil), x.scalar(bs.Fields[1], nil)))
+	// (two nil interfaces are equal whatever their data words hold)
+	ta, tb := as.Fields[0].(*smt.Term), bs.Fields[0].(*smt.Term)
+	return B.And(B.Eq(ta, tb), B.Or(B.Eq(ta, B.IntC(0)), B.Eq(x.scalar(as.Fields[1], nil), x.scalar(bs.Fields[1], nil))))
 }
 
 func (f *Frame) typeAssert(st *State, ins *ssa.TypeAssert) Value {
